@@ -1,7 +1,8 @@
 (** Judge for C08: tree comparison counts are exact set differences of splits.
-    case: ((op compare|weighted|common) (t1 T) (t2 T) (tips T|F) (ident T|F))
-    obs : ((err m) (stats ((tree1 n) (tree2 n) (common n) (same b) (serr m))))
-          ((err m) (wstats ((tree1 (q ..)) (tree2 (q ..)) (common (q ..)) (same b) (serr m))))
+    case: ((op compare|weighted) (t1 T) (t2s (T ...)) (tips T|F) (ident T|F))   stream of compared trees, one call
+          ((op common) (t1 T) (t2 T) (tips T|F) (ident F))
+    obs : ((err m) (stats (((id i) (tree1 n) (tree2 n) (common n) (same b) (serr m)) ...)))
+          ((err m) (wstats (((id i) (tree1 (q ..)) (tree2 (q ..)) (common (q ..)) (same b) (serr m)) ...)))
           ((err m) (tree1 n) (common n))
           ((hang T)) | ((panic m))
     Correspondence: the Go record equals the record of the model over the hash index
@@ -134,20 +135,23 @@ Definition judge_compare (tips ident : bool) (t1 t2 : utree) (o : sexp) : verdic
     else match x <- get "stats" o ;; dec_bstats x with
          | None => VBad "no stats in observation"
          | Some g =>
-           if negb (bstats_eqb ms g) then VCorr ("model: " ++ show_bstats ms)
-           else
-             let assoc_ok :=
-                 if String.eqb (bs_err ms) "" then
-                   match compare tips ident t1 t2 with
-                   | Some (Ok ma) => bstats_eqb ma ms
-                   | _ => false
-                   end
-                 else true in
-             if negb assoc_ok then VCorr "association-list model and hash-index model differ"
-             else match oracle_counts tips ident t1 t2 g with
-                  | Some m => VOracle m
-                  | None => VOk (nontrivial_case t1 t2) (tagof "compare" tips ident t1 t2)
-                  end
+           (* the oracle judges the implementation's record on its own, first: a record the property
+              rejects is a violation whatever the model says *)
+           match oracle_counts tips ident t1 t2 g with
+           | Some m => VOracle (m ++ (if bstats_eqb ms g then "" else " [model: " ++ show_bstats ms ++ "]"))
+           | None =>
+             if negb (bstats_eqb ms g) then VCorr ("model: " ++ show_bstats ms)
+             else
+               let assoc_ok :=
+                   if String.eqb (bs_err ms) "" then
+                     match compare tips ident t1 t2 with
+                     | Some (Ok ma) => bstats_eqb ma ms
+                     | _ => false
+                     end
+                   else true in
+               if negb assoc_ok then VCorr "association-list model and hash-index model differ"
+               else VOk (nontrivial_case t1 t2) (tagof "compare" tips ident t1 t2)
+           end
          end
   end.
 
@@ -169,20 +173,21 @@ Definition judge_weighted (tips ident : bool) (t1 t2 : utree) (o : sexp) : verdi
     else match x <- get "wstats" o ;; dec_wstats x with
          | None => VBad "no wstats in observation"
          | Some g =>
-           if negb (wstats_eqb ms g) then VCorr ("model: " ++ show_wstats ms)
-           else
-             let assoc_ok :=
-                 if String.eqb (ws_err ms) "" then
-                   match compare_weighted tips ident t1 t2 with
-                   | Some (Ok ma) => wstats_eqb ma ms
-                   | _ => false
-                   end
-                 else true in
-             if negb assoc_ok then VCorr "association-list model and hash-index model differ"
-             else match oracle_weighted tips ident t1 t2 g with
-                  | Some m => VOracle m
-                  | None => VOk (nontrivial_case t1 t2) (tagof "weighted" tips ident t1 t2)
-                  end
+           match oracle_weighted tips ident t1 t2 g with
+           | Some m => VOracle (m ++ (if wstats_eqb ms g then "" else " [model: " ++ show_wstats ms ++ "]"))
+           | None =>
+             if negb (wstats_eqb ms g) then VCorr ("model: " ++ show_wstats ms)
+             else
+               let assoc_ok :=
+                   if String.eqb (ws_err ms) "" then
+                     match compare_weighted tips ident t1 t2 with
+                     | Some (Ok ma) => wstats_eqb ma ms
+                     | _ => false
+                     end
+                   else true in
+               if negb assoc_ok then VCorr "association-list model and hash-index model differ"
+               else VOk (nontrivial_case t1 t2) (tagof "weighted" tips ident t1 t2)
+           end
          end
   end.
 
@@ -212,16 +217,82 @@ Definition judge_common (tips : bool) (t1 t2 : utree) (o : sexp) : verdict :=
     end
   end.
 
+(** ** a stream of compared trees through one call (cpus = 1): one record per tree, found by its
+    id; every tree is judged on its own against the per-tree model (the reference index is built
+    once and only read), i.e. nothing of an earlier compared tree may leak into a later record *)
+Definition record_with_id (i : nat) (recs : list sexp) : option sexp :=
+  find (fun r => match get_nat "id" r with Some j => Nat.eqb i j | None => false end) recs.
+
+Definition one_obs (key : string) (rec : sexp) : sexp :=
+  SList [SList [Atom "err"; Atom ""]; SList [Atom key; rec]].
+
+Fixpoint judge_stream (one : utree -> sexp -> verdict) (i : nat) (t2s : list utree) (recs : list sexp)
+         (nontriv : bool) (tag : string) : verdict :=
+  match t2s with
+  | [] => VOk nontriv tag
+  | t2 :: r =>
+    match record_with_id i recs with
+    | None => VCorr ("no record for the compared tree number " ++ string_of_nat i)
+    | Some rec =>
+      match one t2 rec with
+      | VOk nt tg => judge_stream one (S i) r recs (nontriv || nt) (if Nat.eqb i 0 then tg else tag)
+      | VCorr m => VCorr ("compared tree " ++ string_of_nat i ++ ": " ++ m)
+      | VOracle m => VOracle ("compared tree " ++ string_of_nat i ++ " of the stream: " ++ m)
+      | VBad m => VBad m
+      end
+    end
+  end.
+
+Definition judge_many (weighted tips ident : bool) (t1 : utree) (t2s : list utree) (o : sexp) : verdict :=
+  let key := if weighted then "wstats" else "stats" in
+  match get_string "err" o with
+  | None => match get_string "panic" o with
+            | Some m => (match t2s with
+                         | t2 :: _ => if weighted then judge_weighted tips ident t1 t2 o else judge_compare tips ident t1 t2 o
+                         | [] => VBad ("panic: " ++ m)
+                         end)
+            | None => VBad "no err in observation"
+            end
+  | Some gerr =>
+    if negb (String.eqb gerr "") then
+      (* the call itself returned an error: the model must refuse the reference tree *)
+      match t2s with
+      | t2 :: _ => if weighted then judge_weighted tips ident t1 t2 o else judge_compare tips ident t1 t2 o
+      | [] => VOk false "stream:empty:err"
+      end
+    else match x <- get key o ;; list_of x with
+         | None => VBad "no records in observation"
+         | Some recs =>
+           if negb (Nat.eqb (length recs) (length t2s))
+           then VCorr (string_of_nat (length recs) ++ " records for " ++ string_of_nat (length t2s) ++ " compared trees")
+           else
+             let one := fun t2 rec => if weighted then judge_weighted tips ident t1 t2 (one_obs key rec)
+                                      else judge_compare tips ident t1 t2 (one_obs key rec) in
+             match judge_stream one 0 t2s recs false "stream:empty" with
+             | VOk nt tg => VOk nt (if Nat.ltb 1 (length t2s) then tg ++ ":stream" else tg)
+             | v => v
+             end
+         end
+  end.
+
 Definition judge (c o : sexp) : verdict :=
   match get_string "hang" o with
-  | Some _ => VOracle "the comparison did not deliver a record within 8 s"
+  | Some _ => VOracle "the comparison did not deliver its records within 8 s"
   | None =>
-    match get_string "op" c, get_tree "t1" c, get_tree "t2" c, get_bool "tips" c, get_bool "ident" c with
-    | Some op, Some t1, Some t2, Some tips, Some ident =>
-      if String.eqb op "compare" then judge_compare tips ident t1 t2 o
-      else if String.eqb op "weighted" then judge_weighted tips ident t1 t2 o
-      else if String.eqb op "common" then judge_common tips t1 t2 o
-      else VBad "unknown op"
-    | _, _, _, _, _ => VBad "undecodable case"
+    match get_string "op" c, get_tree "t1" c, get_bool "tips" c, get_bool "ident" c with
+    | Some op, Some t1, Some tips, Some ident =>
+      if String.eqb op "common" then
+        match get_tree "t2" c with
+        | Some t2 => judge_common tips t1 t2 o
+        | None => VBad "undecodable case"
+        end
+      else match x <- get "t2s" c ;; dec_list dec_utree x with
+           | None => VBad "undecodable case"
+           | Some t2s =>
+             if String.eqb op "compare" then judge_many false tips ident t1 t2s o
+             else if String.eqb op "weighted" then judge_many true tips ident t1 t2s o
+             else VBad "unknown op"
+           end
+    | _, _, _, _ => VBad "undecodable case"
     end
   end.
